@@ -592,9 +592,24 @@ func perturb(r *hx.Rand, s string) string {
 	if !strings.Contains(s, ".") {
 		frac = s + "."
 	}
-	switch r.Intn(6) {
+	switch r.Intn(7) {
 	case 0:
 		return s
+	case 6:
+		// just above the written value, with the extra digit INSIDE the 800 digits decimal.go
+		// keeps (places 770..800): set stores it, the multiprecision shifts then push it off the
+		// buffer, and only their `trunc` flag remembers that the value is above the tie
+		nd := 0
+		for _, c := range frac {
+			if c >= '0' && c <= '9' {
+				nd++
+			}
+		}
+		pad := 769 + r.Intn(31) - nd
+		if pad < 1 {
+			pad = 1
+		}
+		return frac + strings.Repeat("0", pad) + "1"
 	case 5:
 		// just above the written value, but only beyond the 800 digits decimal.go keeps:
 		// the slow path must remember that it truncated non-zero digits
